@@ -4,19 +4,27 @@ Model: coq/model/Signal.v (SignalHandler as a state machine, a tool run as an ev
 programs and all schedules in coq/props/C20.v.  This module ties the model to the real code:
 
  (R1) the real class mutagen._tools._util.SignalHandler is driven with abstract event lists (real signals via
-      os.kill, real block() context managers) and compared with the extracted model on every well-formed
-      event list up to a length bound plus random longer ones;
+      os.kill, real block() context managers; init() called under the signal dispositions of a freshly started
+      interpreter) and compared with the extracted model on every well-formed event list up to a length bound
+      plus random longer ones; where they differ the property is judged on the class alone (direct_class_oracle);
  (R2) every tool / modifying sub-command is run in-process (entry_point(), so the handlers are installed the
-      way the console script installs them) in a forked child on temp copies of tests/data samples; file
-      operations (wrapped builtins.open), block() enter/leave and handler invocations are recorded, and a REAL
-      signal is delivered at event index k for every k of the run.  The undisturbed trace is the program; it must
-      be `protected` (decided by the extracted model) and the model's sig_run on the program with Sig inserted
-      where the handler actually ran must predict the observed executed operations, outcome and stopping point;
- (D)  direct oracle, independent of the model and of the block bookkeeping: the directory after a signalled
-      run must equal, byte for byte, the directory produced by the UNINSTRUMENTED tool invoked on just the
-      files up to and including the one being processed (signal inside its operations) / up to the last finished
-      one (signal between files or during option parsing); the run must end in SystemExit with a true code, and
-      no file operation of a later file may happen after the handler ran;
+      way the console script installs them, starting from a fresh interpreter's dispositions: SIGINT ->
+      default_int_handler, SIGTERM/SIGHUP -> SIG_DFL) in a forked child on temp copies of tests/data samples; file
+      operations (wrapped builtins.open), block() enter/leave and handler invocations (wrappers on the CLASS:
+      whichever instance a tool uses, wherever it keeps it) are recorded, and a REAL signal is delivered at event
+      index k for every k of the run.  The undisturbed trace is the program; it must be `protected` (decided by
+      the extracted model) and the model's sig_run on the program with Sig inserted where the handler actually
+      ran must predict the observed executed operations, outcome and stopping point;
+ (D)  direct oracle, independent of the model, of the block/handler bookkeeping and of the tools' internals (it
+      needs the open() wrapper only, to place the signal): the directory after a signalled run must equal, byte
+      for byte, the directory produced by the UNINSTRUMENTED tool invoked on just the files up to and including
+      the one being processed (signal inside its operations) / up to the last finished one (signal between files
+      or during option parsing); a signal inside a file's operations must end in SystemExit with a true code (the
+      abort report), one outside must terminate the run at once (SystemExit, or Python's/the kernel's own death by
+      the signal), and no file operation of a later file may happen after the signal.  D's verdict stands whatever
+      R2 finds (handler never ran, KeyboardInterrupt/SystemExit out of the middle of a block, no Enter recorded,
+      process killed ...): those are reported as disagreements IN ADDITION.  When the plan's per-file unit
+      structure is unusable D falls back to "every file whole (some undisturbed state) + aborting exit";
  (V)  vm_compute cross-check of the extracted binary.
 """
 import os, sys, json, signal, select, shutil, time, hashlib, builtins, contextlib, io, importlib, itertools, re, traceback
@@ -33,6 +41,9 @@ TRUSTED = [
     "CPython delivers Python-level signal handlers between bytecodes; the harness injects real signals at file-operation, "
     "block-boundary and (thorough) source-line boundaries only",
     "the recording wrappers (builtins.open wrapper, SignalHandler.block/_handler wrappers installed on the class before entry_point())",
+    "SignalHandler.init() is not part of the model (it has no state-machine content): that it installs the handler for all three signals "
+    "is observed by real signals only, starting from the dispositions of a freshly started interpreter (SIGINT -> signal.default_int_handler, "
+    "SIGTERM/SIGHUP -> SIG_DFL); a tool started with other inherited dispositions (nohup, SIGINT ignored by a background shell) is not exercised",
 ]
 MANIFEST = {
     "text": "model full: for every program (event list) whose file operations all lie inside SignalHandler.block() and every schedule "
@@ -51,7 +62,7 @@ MANIFEST = {
     "design_ref": "DESIGN.md section 5, C20; Appendix B (Signal handler)",
 }
 RULE = ("R1: every well-formed event list over {Sig,Enter,Leave,FileOp,Other,Exn} up to length 5 (thorough 7) plus random lists up to length 40, "
-        "real SignalHandler vs extracted model (ops, outcome, steps, final flags). R2/D: per tool sub-command (mid3v2 write/-D/--delete-frames, "
+        "real SignalHandler (init() under a fresh interpreter's signal dispositions, signal SIGINT/SIGTERM/SIGHUP by list number) vs extracted model (ops, outcome, steps, final flags). R2/D: per tool sub-command (mid3v2 write/-D/--delete-frames, "
         "mid3iconv, mid3cp, moggsplit, and -d -s -C -p, two-phase, --remove-v1 --force-v1 --merge --write-v1 --m3u variants) with >= 2 files, a "
         "real signal at EVERY event index of the run (quick: SIGINT every index, SIGTERM/SIGHUP on a stride with rng offset, plus every source-line "
         "event of two small invocations; thorough: all three at every index plus every source-line event of every invocation). non-trivial = a real signal was delivered to the running tool (R2) / the event list contains a Sig (R1); distinct by "
@@ -495,6 +506,10 @@ def run_jobs(jobs, par):
                     res = {"error": "unparsable child output"}
                 if os.WIFSIGNALED(status) and not res.get("timeout"):
                     res["killed_by"] = os.WTERMSIG(status)
+                    try:
+                        res["snap"] = snapshot(wd)        # what the dead tool left behind
+                    except OSError:
+                        pass
                 results[idx] = res
                 shutil.rmtree(wd, ignore_errors=True)
                 del running[r]
@@ -639,7 +654,18 @@ def check_run(ctx, P, signame, t, r, mode):
     if r.get("timeout"):
         return viol("tool did not terminate after the signal")
     if "killed_by" in r:
-        return viol("tool process killed by signal %d (no handler installed for it by entry_point)" % r["killed_by"])
+        # the process died of the signal at the point of delivery (no Python-level handler installed for it): at once, by
+        # construction.  Outside a file's operations that IS "terminates the tool immediately" (files must be untouched);
+        # inside, the modification was abandoned
+        stages, inunit = (list(range(len(P.stage_snaps))), None) if P.weak else expected_stages(P, t)
+        ctx.count("deliveries:" + signame)
+        ctx.oracle_cases += 1
+        if inunit is None and r["killed_by"] == getattr(signal, signame) and any(r.get("snap") == P.stage_snaps[j] for j in stages):
+            disagree("c20.tool", "%s: sig %s at %d: no handler installed, the process was killed by the signal (outside any file's operations: "
+                                 "files intact, terminated at once)" % (tag, signame, t), data)
+            return True
+        return viol("tool process killed by signal %d while working on a file (no handler installed for it by entry_point)" % r["killed_by"],
+                    directory_is_an_undisturbed_state=any(r.get("snap") == sn for sn in P.stage_snaps))
     if r.get("error"):
         disagree("c20.harness", "%s: child failed: %s" % (tag, r["error"][-300:]), data)
         return True
@@ -676,7 +702,11 @@ def check_run(ctx, P, signame, t, r, mode):
             what = "file(s) left half-done: directory matches no undisturbed state"
         ok = viol(what, differing=diff[:6], inside_block_at_delivery=r["nosig_at"], handler_ran=handled, run_ended=ended,
                   state_after_files=whole[:1], expected_after_files=stages)
-    if r["outcome"] != "Exit" or not r.get("code_true"):
+    aborted = r["outcome"] == "Exit" and r.get("code_true")
+    # outside a file modification "the signal terminates the tool immediately": Python's own way of dying of a SIGINT
+    # (KeyboardInterrupt out of entry_point) is such a termination too; inside, the tool must finish and REPORT the abort
+    died = r["outcome"] == "Crashed" and r.get("exc") == "KeyboardInterrupt" and signame == "SIGINT"
+    if not aborted and not (died and (weak or inunit is None)):
         ok = viol("run did not end in an aborting SystemExit after the signal (ended %s)" % ended, handler_ran=handled)
     if not weak:
         after = [i for i, tk in enumerate(stripped) if i >= t and tk[0] == "F"]     # executed after the signal was sent
@@ -748,6 +778,7 @@ def check_case(ctx, case, schedule, linemode, par, deadline=None):
             ctx.disagree("c20.tool", "%s %s: model does not finish the undisturbed program: %s" % (case.id, mode, und), {"case": case.id})
     todo = schedule(len(P.prog))
     done = 0
+    nviol0 = len(ctx.violations)
     chunk = JOB_CHUNK if deadline is not None else max(1, len(todo))
     for c in range(0, len(todo), chunk):
         if deadline is not None and time.time() > deadline:
@@ -759,7 +790,13 @@ def check_case(ctx, case, schedule, linemode, par, deadline=None):
             check_run(ctx, P, s, t, r, mode)
         done += len(part)
     ctx.count("runs:%s/%s" % (case.id, mode), done)
+    ctx.violations[nviol0:] = sorted(ctx.violations[nviol0:], key=viol_rank)      # stable: the most telling schedule first
     return P
+
+
+def viol_rank(v):
+    w = v["what"]
+    return 0 if "half-done" in w else 1 if "killed" in w else 2 if "continued" in w or "later file" in w else 3 if "did not finish" in w else 4
 
 
 def first_unprotected(mprog):
@@ -827,6 +864,10 @@ def sm_child(lists, wfd):
     kills the process (no handler installed for it) still tells the parent which list did it."""
     try:
         from mutagen._tools._util import SignalHandler
+        missing = [m for m in ("init", "block") if not callable(getattr(SignalHandler, m, None))]
+        if missing:                               # the class is not the one this driver knows: nothing to judge here
+            os.write(wfd, json.dumps({"undrivable": "SignalHandler has no %s()" % "/".join(missing)}).encode() + b"\n")
+            return
         for l, signame in lists:
             fresh_dispositions()
             h = SignalHandler()
@@ -895,9 +936,12 @@ def drive_class(lists):
         for line in b"".join(chunks).split(b"\n"):
             if line:
                 try:
-                    obs.append(json.loads(line.decode()))
+                    o = json.loads(line.decode())
                 except ValueError:
                     return obs, "unparsable output of the child driving SignalHandler"
+                if isinstance(o, dict):
+                    return obs, o.get("undrivable", "?")
+                obs.append(o)
         if len(obs) < len(lists):
             restarts += 1
             if os.WIFSIGNALED(status):
@@ -936,6 +980,8 @@ def direct_class_oracle(ctx, l, o, signame="SIGINT"):
     prog = [e for e in l if e != "S"]
     if "X" in prog or "S" not in l or first_unprotected(prog) is not None:
         return
+    if o[0] not in ("Finished", "Exit", "Crashed", "Raised:KeyboardInterrupt") and not o[0].startswith("Killed:"):
+        return                                    # the driver itself failed on this class (TypeError ...): a disagreement, not a verdict
     depth = 0
     for e in prog:
         depth += 1 if e == "E" else -1 if e == "L" else 0
@@ -954,7 +1000,10 @@ def direct_class_oracle(ctx, l, o, signame="SIGINT"):
     else:
         done = pre
     want_ops = [e[1:] for e in done if e[0] == "F"]
-    if o[0] != "Exit" or o[2] != want_ops:
+    # an unblocked signal "terminates immediately": so does Python's own KeyboardInterrupt on SIGINT / death by the signal
+    died = not inside and ((o[0] == "Raised:KeyboardInterrupt" and signame == "SIGINT" and o[2] == want_ops) or
+                           o[0] == "Killed:%d" % getattr(signal, signame))
+    if (o[0] != "Exit" or o[2] != want_ops) and not died:
         key = "SignalHandler: " + ("blocked work not completed / run not aborted" if inside else "unblocked signal did not abort at once")
         ctx.count("class-oracle-failures")
         if not any(v["what"] == key and v["data"].get("signal") == signame for v in ctx.violations):   # one schedule per kind and signal
@@ -1074,9 +1123,10 @@ SEARCH_BUDGET = {"quick": 75, "thorough": 1500}       # seconds of wall clock fo
 
 def search(ctx, broken):
     """a proof or the correspondence broke and run() found no failing schedule: every index x every signal (event
-    mode) on the invocations run() sampled, then on the remaining ones, then line mode -- within a wall-clock budget
-    (run() has already delivered SIGINT at every event index of the quick invocations, so what is new here is the
-    other two signals at the indices the stride skipped, the thorough-only invocations and more source lines)"""
+    mode) on every invocation, then line mode on the small ones -- within a wall-clock budget.  run() has already
+    delivered SIGINT at every event index of every invocation (and the other two on a stride), so what is new here
+    is SIGTERM/SIGHUP at the indices the stride skipped and more source lines; a change that breaks the property for
+    the tools is found by run() itself, this search is the second look before `no-failing-input-found`"""
     before = len(ctx.violations)
     par = parallelism()
     deadline = time.time() + SEARCH_BUDGET["thorough" if ctx.thorough else "quick"]
